@@ -19,7 +19,7 @@ RULE = ('Cases: an ancestor of 1..3 contigs (a few per run of 45..200 kb with th
 ASSUMPTIONS = ['the planted truth is the oracle; no model of ska is involved',
                'uniqueness is required over the union of samples, see DESIGN.md section 8']
 REQUIRED = {t: ['route:skf', 'route:fasta', 'sites_at_min_gap', 'sites_at_min_end', 'multi_contig', 'contigs_of_length_k_or_k+1', 'parallel_build_path',
-                'names_not_in_sorted_order', 'output_to_existing_longer_file', 'cases_with_1024+_sites', 'cases_with_lower_case_stretches', 'cases_with_windowless_contigs_among_the_records', 'samples_spread_over_two_files', 'parallel_builds_with_two_file_samples'] for t in ('quick', 'thorough')}
+                'names_not_in_sorted_order', 'output_to_existing_longer_file', 'cases_with_1024+_sites', 'cases_with_lower_case_stretches', 'cases_with_windowless_contigs_among_the_records', 'samples_spread_over_two_files', 'parallel_builds_with_two_file_samples', 'single_strand_builds', 'sites_between_two_runs_of_A'] for t in ('quick', 'thorough')}
 
 
 def builds(tier):
@@ -61,7 +61,7 @@ def admissible(ss, k):
     return True
 
 
-def gen(rng, k, large=None):
+def gen(rng, k, large=None, polyA=False):
     h = (k - 1) // 2
     for _attempt in range(400 if not large else 6):
         ns = rng.choice([2, 3, 4, 5, 6, 7, 8, 9, 10, 10, 10])
@@ -106,6 +106,20 @@ def gen(rng, k, large=None):
                     p += step
                 else:
                     p += 1 + rng.randint(0, k)
+        if polyA and k > 5 and not large:
+            # one more contig whose only site sits between two runs of exactly h A's (both arms of its window encode as zero)
+            L_ = G.rseq(rng, h + 1)[:-1] + rng.choice('CGT')
+            R_ = rng.choice('CGT') + G.rseq(rng, h + 1)[1:]
+            alle = rng.sample('CGT', rng.choice([2, 3]))
+            while True:
+                asg = [rng.choice(alle) for _ in range(ns)]
+                if len(set(asg)) > 1:
+                    break
+            contigs.append(L_ + 'A' * h + asg[0] + 'A' * h + R_)
+            for s_ in range(ns):
+                samples[s_].append(list(L_ + 'A' * h + asg[s_] + 'A' * h + R_))
+            truth.append(''.join(asg))
+            stats['polyA'] = 1
         ss = [[''.join(c) for c in s] for s in samples]
         if truth and admissible(ss, k):
             return contigs, ss, truth, stats
@@ -116,7 +130,7 @@ def run_case(desc, ctx):
     res = Result()
     k = desc['k']
     rng = random.Random(desc['seed'])
-    g = gen(rng, k, desc.get('large'))
+    g = gen(rng, k, desc.get('large'), polyA=(desc['seed'] % 5 == 2 or desc['seed'] % 11 == 3))
     if g is None:
         res.count('generator_gave_up')
         return res
@@ -125,17 +139,21 @@ def run_case(desc, ctx):
     files = []
     # sample names whose input order is usually not their sorted order (s2, s10, b7, ...): a run that lists or
     # stores samples in any order other than the one given pairs rows with the wrong sample
-    pool = ['%s%d' % (c, n) for c in 'sbz' for n in range(0, 31)]
+    pool = ['%s%d' % (c, n) for c in 'sbz' for n in range(0, 31)] + ['GCF_%04d.2' % n for n in range(8)] + ['iso.v%d.1' % n for n in range(4)]
     names_exp = rng.sample(pool, ns)
     if names_exp != sorted(names_exp):
         res.count('names_not_in_sorted_order')
     lower_used = False
     short_used = False
     file_recs = []
+    # a fifth of the stored-file cases are single-strand builds of samples whose contigs all come in the orientation of the ancestor
+    single_strand = desc['route'] == 'skf' and desc['seed'] % 5 == 2
+    if single_strand:
+        res.count('single_strand_builds')
     for i, s in enumerate(ss):
         order = list(range(len(s)))
         rng.shuffle(order)
-        recs = [s[j] if rng.random() < 0.5 else M.rc(s[j]) for j in order]
+        recs = [s[j] if (single_strand or rng.random() < 0.5) else M.rc(s[j]) for j in order]
         if rng.random() < 0.3:
             # a contig without any window (shorter than k, or broken by N) somewhere among the records of the file
             recs.insert(rng.randrange(len(recs) + 1), rng.choice([G.rseq(rng, rng.randint(1, k - 1)), G.rseq(rng, k // 2) + 'N' + G.rseq(rng, k // 2)]))
@@ -181,7 +199,7 @@ def run_case(desc, ctx):
         b = ctx.bins[variant]
         if desc['route'] == 'skf':
             oname = 'o' if desc['seed'] % 4 else 'run.k%d' % k            # a quarter of the stored files carry a dot in their prefix
-            p = G.ska_build(ctx, ctx.path(oname), ['-f', listfile] if listfile else files, k, True, binary=b, extra=['--threads', threads])
+            p = G.ska_build(ctx, ctx.path(oname), ['-f', listfile] if listfile else files, k, not single_strand, binary=b, extra=['--threads', threads])
             if p.returncode != 0:
                 if variant == 'chk' and 'overflow' in p.stderr:
                     res.count('chk_overflow_panics')
@@ -219,6 +237,7 @@ def run_case(desc, ctx):
     if len(truth) > 1024:
         res.count('cases_with_1024+_sites')
         res.see('large_sites', len(truth))
+    res.count('sites_between_two_runs_of_A', stats.get('polyA', 0))
     res.count('sites_at_min_gap', stats['min_gap'])
     res.count('sites_at_min_end', stats['min_end'])
     res.count('contigs_of_length_k_or_k+1', stats.get('short_contig', 0))
